@@ -10,7 +10,9 @@ from spec_classes import Alias, DeprecatedAlias, spec_class
 
 NONE = {"t": "none"}
 OVERRIDE = "__spec_classes_Alias_a_override"
-PATHS = {"t": "t", "o.t": "o.t", "d[k]": 'd["k"]', "o.d[k]": "o.d['k']"}
+PATHS = {"t": "t", "o.t": "o.t", "d[k]": 'd["k"]', "o.d[k]": "o.d['k']",
+         # a path that continues after a key lookup (both quote styles), and keys containing a dot
+         "e[k].t": 'e["k"].t', "e[q].t": "e['q'].t", "e[k.k]": "e['k.k']", "e[k.q]": 'e["k.q"]'}
 
 
 def alpha(v):
@@ -32,7 +34,12 @@ def alpha(v):
 COLL = [False]          # projecting for a collection-typed alias configuration (lists of ints are values there)
 
 
+PYNONE = {"t": "pynone"}
+
+
 def gamma(v):
+    if v["t"] == "pynone":
+        return None
     if v["t"] == "ilist":
         return list(v["e"])
     return v["i"] if v["t"] == "int" else v["s"]
@@ -46,6 +53,10 @@ class Inner:
     def __init__(self):
         self.t = 1
         self.d = {"k": 1}
+
+
+def _e():
+    return {"k": Inner(), "q": Inner(), "k.k": 1, "k.q": 1}
 
 
 def make_host(cfg):
@@ -72,17 +83,25 @@ def make_host(cfg):
             self.t = 1
             self.o = Inner()
             self.d = {"k": 1}
+            self.e = _e()
         cls = type("PlainHost", (), {"__init__": __init__, "a": alias})
         return cls, (lambda: cls()), fb
-    ns = {"__annotations__": {"t": int, "o": Inner, "d": Dict[str, int], "a": int}, "a": alias}
+    from typing import Any
+    ns = {"__annotations__": {"t": int, "o": Inner, "d": Dict[str, int], "e": Dict[str, Any], "a": int}, "a": alias}
     with warnings.catch_warnings():
         warnings.simplefilter("ignore")
         cls = spec_class(type("SpecHost", (), ns))
-        cls(t=1, o=Inner(), d={"k": 1})      # bootstrap outside the recorded region
-    return cls, (lambda: cls(t=1, o=Inner(), d={"k": 1})), fb
+        cls(t=1, o=Inner(), d={"k": 1}, e=_e())      # bootstrap outside the recorded region
+    return cls, (lambda: cls(t=1, o=Inner(), d={"k": 1}, e=_e())), fb
+
+
+_EKEY = {"e[k].t": ("k", True), "e[q].t": ("q", True), "e[k.k]": ("k.k", False), "e[k.q]": ("k.q", False)}
 
 
 def tget(obj, path):
+    if path in _EKEY:
+        k, attr = _EKEY[path]
+        return obj.e[k].t if attr else obj.e[k]
     if path == "t":
         return obj.t
     if path == "o.t":
@@ -93,6 +112,13 @@ def tget(obj, path):
 
 
 def tset(obj, path, v):
+    if path in _EKEY:
+        k, attr = _EKEY[path]
+        if attr:
+            obj.e[k].t = v
+        else:
+            obj.e[k] = v
+        return
     if path == "t":
         obj.t = v
     elif path == "o.t":
@@ -104,6 +130,13 @@ def tset(obj, path, v):
 
 
 def tdel(obj, path):
+    if path in _EKEY:
+        k, attr = _EKEY[path]
+        if attr:
+            del obj.e[k].t
+        else:
+            del obj.e[k]
+        return
     if path == "t":
         del obj.t
     elif path == "o.t":
@@ -121,14 +154,19 @@ def state(obj, path):
         t = alpha(tget(obj, path))
     except (AttributeError, KeyError):
         t = NONE
-    return {"target": t, "ov": alpha(obj.__dict__.get(OVERRIDE))}
+    return {"target": t, "ov": (PYNONE if obj.__dict__[OVERRIDE] is None else alpha(obj.__dict__[OVERRIDE])) if OVERRIDE in obj.__dict__ else NONE}
 
 
 def run_path(cfg, path):
     COLL[0] = bool(cfg.get("coll"))
     if COLL[0]:
         return run_coll_path(cfg, path)
-    cls, new, fb = make_host(cfg)
+    try:
+        cls, new, fb = make_host(cfg)
+    except Exception as e:  # noqa: BLE001
+        # the alias declaration itself was refused (e.g. its path): every access of the path is reported as failing that way
+        init = {"target": {"t": "int", "i": 1}, "ov": NONE}
+        return {"cfg": cfg, "steps": [{"a": a, "res": type(e).__name__, "val": NONE, "st": init, "fresh": True, "orig_same": True, "warns": 0} for a in path]}
     with warnings.catch_warnings():
         warnings.simplefilter("ignore")
         obj = new()
@@ -166,7 +204,7 @@ def run_path(cfg, path):
             except Exception as e:  # noqa: BLE001
                 res = type(e).__name__
             nwarn = len([x for x in w if issubclass(x.category, DeprecationWarning)])
-        av = alpha(val)
+        av = PYNONE if (val is None and res == "ok" and a["op"] in ("read_alias", "read_target")) else alpha(val)
         if isinstance(val, list):
             val.append(99)          # any sharing with the fallback object shows up at the next read
         with warnings.catch_warnings():
@@ -220,18 +258,26 @@ def enabled(cfg, a):
         return True
     if a["op"] == "cow_alias":
         return cfg["host"] == "spec"
+    if a["op"] == "write_alias" and a["v"]["t"] == "pynone":
+        return not cfg["pt"]
     if a["op"] == "cow_target":
         return cfg["host"] == "spec" and cfg["path"] == "t"
     return True
 
 
 def run(job):
-    cfgs, acts, L, n_random, rlen, sd = job
+    cfgs, acts, L, n_random, rlen, sd = job[:6]
+    stride = job[6] if len(job) > 6 else 1          # thorough: all paths of length L-1, every stride-th path of length L
     rnd = random.Random(sd)
     out = []
     for cfg in cfgs:
         ea = [a for a in acts if enabled(cfg, a)]
-        for path in itertools.product(ea, repeat=L):
+        if stride > 1:
+            for path in itertools.product(ea, repeat=L - 1):
+                out.append(run_path(cfg, list(path)))
+        for idx, path in enumerate(itertools.product(ea, repeat=L)):
+            if stride > 1 and (idx + sd) % stride:
+                continue
             out.append(run_path(cfg, list(path)))
         for _ in range(n_random):
             out.append(run_path(cfg, [rnd.choice(ea) for _ in range(rlen)]))
